@@ -1,0 +1,129 @@
+//go:build verif
+
+// Contracts for package packets, read by /verif/govc (comment lines starting with //@).
+// With the verif tag off this file is not compiled; with it on it only adds pure spec helpers.
+
+package packets
+
+import (
+	"github.com/google/gopacket/layers"
+)
+
+// specParsed is the representation invariant a successfully parsed FrameParser satisfies:
+// at least two decoded layers, an IP layer followed by a transport layer traceroute knows.
+func specParsed(p *FrameParser) bool {
+	return len(p.Layers) >= 2 &&
+		(p.Layers[0] == layers.LayerTypeIPv4 || p.Layers[0] == layers.LayerTypeIPv6) &&
+		(p.Layers[1] == layers.LayerTypeTCP || p.Layers[1] == layers.LayerTypeUDP ||
+			p.Layers[1] == layers.LayerTypeICMPv4 || p.Layers[1] == layers.LayerTypeICMPv6)
+}
+
+//@ func (*FrameParser).GetIPLayer
+//@ inline
+//@ safety C09
+//@ requires[pre.nonnil]    p != nil
+//@ ensures[C09.iplayer]    ret0 == ite(len(p.Layers) < 2, 0, int(p.Layers[0]))
+//@ modifies nothing
+
+//@ func (*FrameParser).GetTransportLayer
+//@ inline
+//@ safety C09
+//@ requires[pre.nonnil]    p != nil
+//@ ensures[C09.translayer] ret0 == ite(len(p.Layers) < 2, 0, int(p.Layers[1]))
+//@ modifies nothing
+
+//@ func (*FrameParser).checkLayers
+//@ inline
+//@ safety C09
+//@ requires[pre.nonnil]    p != nil
+//@ ensures[C09.checklayers] (ret0 == nil) == specParsed(p)
+//@ modifies nothing
+
+//@ func (*FrameParser).getParser
+//@ inline
+//@ safety C09
+//@ requires[pre.nonnil]    p != nil
+//@ ensures[C09.getparser.class] ret1 != nil && len(buffer) >= 1 ==> chain(ret1, *common.BadPacketError)
+//@ ensures[C09.getparser.ok]    (ret1 == nil) == (len(buffer) >= 1 && (buffer[0]/16 == 4 || buffer[0]/16 == 6))
+//@ modifies nothing
+
+//@ func (*FrameParser).Parse
+//@ safety C09
+//@ requires[pre.nonnil]      p != nil
+//@ requires[pre.parsers]     p.parserv4 != nil && p.parserv6 != nil
+//@ ensures[C09.parse.class]  ret0 != nil && len(buffer) >= 1 ==> chain(ret0, *common.ReceiveProbeNoPktError) || chain(ret0, *common.BadPacketError)
+//@ ensures[C09.parse.ok]     ret0 == nil ==> specParsed(p)
+//@ modifies FrameParser.IP4, FrameParser.IP6, FrameParser.TCP, FrameParser.ICMP4, FrameParser.ICMP6, FrameParser.Payload, FrameParser.Layers, gopacket.DecodingLayerParser
+
+//@ func ParseTCPFirstBytes
+//@ safety C09
+//@ ensures[C09.tcp8.err]   (ret1 != nil) == (len(buffer) < 8)
+//@ ensures[C01.tcp8.val]   ret1 == nil ==> int(ret0.SrcPort) == int(be16(buffer, 0)) && int(ret0.DstPort) == int(be16(buffer, 2)) && int(ret0.Seq) == int(be32(buffer, 4))
+//@ modifies nothing
+
+//@ func ParseUDPFirstBytes
+//@ safety C09
+//@ ensures[C09.udp8.err]   (ret1 != nil) == (len(buffer) < 8)
+//@ ensures[C01.udp8.val]   ret1 == nil ==> int(ret0.SrcPort) == int(be16(buffer, 0)) && int(ret0.DstPort) == int(be16(buffer, 2)) && int(ret0.Length) == int(be16(buffer, 4)) && int(ret0.Checksum) == int(be16(buffer, 6))
+//@ modifies nothing
+
+//@ func extractEmbeddedIPv6
+//@ safety C09
+//@ ensures[C09.emb6.err]   (ret1 == nil) == (len(payload) >= 5 && payload[4]/16 == 6)
+//@ ensures[C01.emb6.val]   ret1 == nil ==> len(ret0) == len(payload)-4 && forall(i, 0, len(ret0), ret0[i] == payload[i+4])
+//@ modifies nothing
+
+//@ func (*FrameParser).GetIPPair
+//@ inline
+//@ safety C09
+//@ requires[pre.nonnil]    p != nil
+//@ requires[pre.parsed]    specParsed(p)
+//@ ensures[C09.ippair.ok]  ret1 == nil
+//@ modifies nothing
+
+//@ func (*FrameParser).IsTTLExceeded
+//@ inline
+//@ safety C09
+//@ requires[pre.nonnil]    p != nil
+//@ ensures[C01.ttlx]       ret0 == ((len(p.Layers) >= 2 && p.Layers[1] == layers.LayerTypeICMPv4 && int(p.ICMP4.TypeCode) == 11*256) || (len(p.Layers) >= 2 && p.Layers[1] == layers.LayerTypeICMPv6 && int(p.ICMP6.TypeCode) == 3*256))
+//@ modifies nothing
+
+//@ func (*FrameParser).IsDestinationUnreachable
+//@ inline
+//@ safety C09
+//@ requires[pre.nonnil]    p != nil
+//@ ensures[C01.unreach]    ret0 == ((len(p.Layers) >= 2 && p.Layers[1] == layers.LayerTypeICMPv4 && int(p.ICMP4.TypeCode)/256 == 3) || (len(p.Layers) >= 2 && p.Layers[1] == layers.LayerTypeICMPv6 && int(p.ICMP6.TypeCode)/256 == 1))
+//@ modifies nothing
+
+//@ func (*FrameParser).GetICMPInfo
+//@ inline
+//@ safety C09
+//@ requires[pre.nonnil]    p != nil
+//@ requires[pre.parsed]    specParsed(p)
+//@ ensures[C09.icmpinfo.kind] ret1 == nil ==> p.Layers[1] == layers.LayerTypeICMPv4 || p.Layers[1] == layers.LayerTypeICMPv6
+//@ ensures[C01.icmpinfo.id4]  ret1 == nil && p.Layers[1] == layers.LayerTypeICMPv4 ==> len(p.ICMP4.Payload) >= 20 && int(ret0.WrappedPacketID) == int(be16(p.ICMP4.Payload, 4))
+//@ modifies nothing
+
+//@ func ReadAndParse
+//@ safety C09
+//@ requires[pre.nonnil]      parser != nil && source != nil
+//@ requires[pre.parsers]     parser.parserv4 != nil && parser.parserv6 != nil
+//@ ensures[C09.rap.ok]       ret0 == nil ==> specParsed(parser)
+//@ modifies FrameParser.IP4, FrameParser.IP6, FrameParser.TCP, FrameParser.ICMP4, FrameParser.ICMP6, FrameParser.Payload, FrameParser.Layers, gopacket.DecodingLayerParser, elems(buffer), ghost clock
+
+//@ iface Source.Read
+//@ requires[pre.buf]      true
+//@ ensures[src.read.n]    0 <= ret0 && ret0 <= len(buf)
+//@ modifies elems(buf), ghost clock
+
+//@ iface Source.SetReadDeadline
+//@ modifies nothing
+
+//@ iface Source.Close
+//@ modifies nothing
+
+//@ iface Sink.WriteTo
+//@ modifies nothing
+
+//@ iface Sink.Close
+//@ modifies nothing
